@@ -17,8 +17,8 @@ def structEffs : RState → List Nat
   | .show e _ _ _ _ _ inner => e :: structEffs inner
   | .forK e _ _ _ _ => [e]
   | .scope _ _ _ inner => structEffs inner
-  | .rows e _ _ _ _ _ => [e]
-  | .rowCons _ _ _ => []
+  | .rows e _ _ _ _ _ _ => [e]
+  | .rowCons _ _ _ _ => []
   | .rowNil => []
 
 /-- the rows of a keyed region as DOM nodes: `<li>` (one mutation: its text child), its text, the marker -/
@@ -40,8 +40,8 @@ def nodesOf : RState → List (N × List Nat)
   | .forK e _ _ ks texts => (forNodes ks texts).map fun n => (n, [e])
   | .scope _ _ _ inner => nodesOf inner
   -- lists with rows of their own are outside the class of `C04_untouched_nodes`
-  | .rows _ _ _ _ _ _ => []
-  | .rowCons _ _ _ => []
+  | .rows _ _ _ _ _ _ _ => []
+  | .rowCons _ _ _ _ => []
   | .rowNil => []
 
 /-- the mount root and everything below it -/
@@ -121,13 +121,13 @@ theorem rerunIn_struct (e : Nat) (w : Int) : ∀ (t : RState) (st : St), e ∉ s
     simp only [structEffs] at h
     simp only [rerunIn, structEffs]
     exact ih st h
-  | rows e' sel lists row ks items _ =>
+  | rows e' en sel lists row ks items _ =>
     intro st h
     simp only [structEffs, List.mem_singleton] at h
     have hne : ¬ e' = e := fun hh => h hh.symm
     simp only [rerunIn, hne, if_false, structEffs]
     exact ⟨trivial, trivial⟩
-  | rowCons k r rest _ _ => intro st _; simp only [rerunIn, structEffs]; exact ⟨trivial, trivial⟩
+  | rowCons k ix r rest _ _ => intro st _; simp only [rerunIn, structEffs]; exact ⟨trivial, trivial⟩
   | rowNil => intro st _; exact ⟨rfl, rfl⟩
 
 /-- a re-run of `e` keeps every node that `e` does not govern: same identity, same mutation counter -/
@@ -201,8 +201,8 @@ theorem rerunIn_nodes (e : Nat) (w : Int) : ∀ (t : RState) (st : St) (n : N) (
     simp only [nodesOf] at h
     simp only [rerunIn, nodesOf]
     exact ih st n' g h hg
-  | rows e' sel lists row ks items _ => intro st n' g h _; simp [nodesOf] at h
-  | rowCons k r rest _ _ => intro st n' g h _; simp [nodesOf] at h
+  | rows e' en sel lists row ks items _ => intro st n' g h _; simp [nodesOf] at h
+  | rowCons k ix r rest _ _ => intro st n' g h _; simp [nodesOf] at h
   | rowNil => intro st n' g h _; simp [nodesOf] at h
 
 
@@ -236,11 +236,11 @@ theorem structEffs_sub : ∀ (t : RState), ∀ e ∈ structEffs t, e ∈ effsOf 
     · exact Or.inr (ih e h)
   | forK e' sel lists ks texts => intro e h; simpa [structEffs, effsOf] using h
   | scope m sid isSig inner ih => intro e h; simp only [structEffs] at h; simp only [effsOf]; exact ih e h
-  | rows e' sel lists row ks items _ =>
+  | rows e' en sel lists row ks items _ =>
     intro e h
     simp only [structEffs, List.mem_singleton] at h
     simp [effsOf, h]
-  | rowCons k r rest _ _ => intro e h; simp [structEffs] at h
+  | rowCons k ix r rest _ _ => intro e h; simp [structEffs] at h
   | rowNil => intro e h; simp [structEffs] at h
 
 /-- the effects governing a node are effects of the tree -/
@@ -309,8 +309,8 @@ theorem nodesOf_sub : ∀ (t : RState) (n : N) (g : List Nat), (n, g) ∈ nodesO
     simp only [nodesOf] at h
     simp only [effsOf]
     exact ih n' g h e he
-  | rows e' sel lists row ks items _ => intro n' g h; simp [nodesOf] at h
-  | rowCons k r rest _ _ => intro n' g h; simp [nodesOf] at h
+  | rows e' en sel lists row ks items _ => intro n' g h; simp [nodesOf] at h
+  | rowCons k ix r rest _ _ => intro n' g h; simp [nodesOf] at h
   | rowNil => intro n' g h; simp [nodesOf] at h
 
 end Leptos.RView
